@@ -20,6 +20,7 @@ pub struct C03 {
     n_gen: u64,
     n_comp: u64,
     n_shape: u64,
+    n_samples: u64,
 }
 
 impl C03 {
@@ -31,6 +32,7 @@ impl C03 {
             n_gen: scaled(tier.pick(30_000, 750_000), scale),
             n_comp: scaled(tier.pick(20_000, 500_000), scale),
             n_shape: scaled(tier.pick(160, 3_200), scale),
+            n_samples: tier.pick(16, 3 * streams::repo_sample_count()),
         }
     }
 
@@ -192,7 +194,7 @@ pub fn alphabet_sweep(r: &mut Rng, dynamic: bool) -> (Vec<u8>, Vec<u8>) {
 
 impl Monitor for C03 {
     fn ncases(&self) -> u64 {
-        self.n_sweep + self.n_gen + self.n_comp + self.n_shape
+        self.n_sweep + self.n_gen + self.n_comp + self.n_shape + self.n_samples
     }
 
     fn run_case(&mut self, k: u64, ctx: &mut Ctx) {
@@ -207,6 +209,21 @@ impl Monitor for C03 {
             return;
         }
         k -= self.n_sweep;
+        if k >= self.n_gen + self.n_comp + self.n_shape {
+            let idx = k - self.n_gen - self.n_comp - self.n_shape;
+            let mut r = Rng::derive(self.seed, 0x0304, idx, 0);
+            let pick = if self.tier == Tier::Quick { r.below(1000) } else { idx };
+            match streams::repo_sample(pick) {
+                Some((name, b)) => {
+                    ctx.count("source:repo sample");
+                    Self::judge(&b, None, &format!("repo sample: {}", name), ctx, false);
+                    let (how, m) = streams::mutate(&mut r, &b, None);
+                    Self::judge(&m, None, &format!("{} <- repo sample: {}", how, name), ctx, false);
+                }
+                None => ctx.count("repo_samples_missing"),
+            }
+            return;
+        }
         let (label, base, truth, mut r) = if k < self.n_gen {
             let mut r = Rng::derive(self.seed, 0x0301, k, 0);
             match streams::generator_stream(&mut r, max_plain) {
